@@ -99,6 +99,11 @@ pub fn gen(idx: u64, rng: &mut Rng, tier: Tier) -> Scn {
     s.snapshots = true;
     for o in s.objects.iter_mut() {
         o.max_transfer_count = rng.range(1, 4) as u32;
+        // a disk error when a LATER transfer starts (the source is rewound then): that transfer is aborted, the life
+        // cycle goes on (the object is handed back, counted, retransmitted / dropped as configured)
+        if (o.carousel.is_some() || o.max_transfer_count > 1) && o.cenc == CencSpec::Null && rng.chance(0.12) {
+            o.source = SourceSpec::StreamFailingSeek(ReadSched::Full, rng.range(6, 9) as u32);
+        }
     }
     // objects removed while still waiting in their queue, triggers
     if rng.chance(0.3) {
@@ -270,6 +275,25 @@ pub fn oracle(scn: &SenderScn, ctx: &Ctx, trace: &SenderTrace) {
                             break;
                         }
                     }
+                }
+            }
+        }
+        // --- a started transfer makes progress: an open transfer of an un-paced object while a read returns nothing at
+        // all means the object is stuck 'in transfer' (e.g. its encoder could not be opened and it was never handed back)
+        if o.target.is_none() {
+            for t in mine.iter() {
+                let stop = t.stop_seq.unwrap_or(u64::MAX);
+                if let Some((pi, p)) = trace.polls.iter().enumerate().find(|(pi, p)| {
+                    let end_seq = trace.polls.get(pi + 1).map(|n| n.seq_begin).unwrap_or(u64::MAX);
+                    p.drained && p.n_pkts == 0 && p.seq_begin > t.start_seq && end_seq < stop && p.t_us > t.start_us + 1000
+                }) {
+                    violate(
+                        ctx,
+                        "C12/transfer-open-but-sender-idle",
+                        "-",
+                        format!("toi={} transfer {} started at event {} and is not finished, yet poll {} at +{} us returned 'nothing to send'", toi, t.n, t.start_seq, pi, p.t_us.saturating_sub(t0_us())),
+                    );
+                    break;
                 }
             }
         }
